@@ -12,9 +12,9 @@ ID = 'C09'
 LEVEL = 'exploration'
 RULE = ('Hypothesis-generated long world plans (60-400 virtual seconds) for the Thrift and ThriftMux stacks built by the public '
         'builders (default aperture balancer, or the heap balancer) with 1-3 endpoints that share one up/down timeline: down = '
-        'connects refused and live connections reset (also: down at first connect; ThriftMux: silent black-hole detected by '
+        'connects refused and live connections reset (also: down at first connect; Thrift: the server hangs - established connections stay but go unanswered, new connects are refused; ThriftMux: silent black-hole detected by '
         'ping), up again after 3-150 s, possibly several phases; a caller issues a call every 0.5-2 s (T = 0.3 s) throughout; '
-        'DispatcherClose() at a drawn time, sometimes while down; resurrector config (5, 60, 1.2) or (2, 10, 1.5). Oracle from '
+        'DispatcherClose() at a drawn time, sometimes while down, or inside a reconnect attempt, or from the completion handler of the k-th failed call; resurrector config (5, 60, 1.2) or (2, 10, 1.5). Oracle from '
         'the network log and call outcomes: while everything is down no call waits (completes within 5 ms); once the fault has '
         'been observed every call fails with FailedFastError until a connect is accepted; reconnect attempts while down are '
         'spaced by non-decreasing gaps, first >= the initial wait, all <= the maximum (+ overhead), and growing after three '
@@ -40,30 +40,41 @@ def plans(draw):
   res = draw(st.sampled_from([[5, 60, 1.2], [2, 10, 1.5], [2, 10, 1.5]]))
   nports = draw(st.sampled_from([1, 1, 2, 3]))
   ports = [9001 + i for i in range(nports)]
-  balancer = draw(st.sampled_from(['default', 'default', 'heap']))
+  # shared: every endpoint follows the same timeline; staggered: they recover at different times; partial: only some
+  # of them go down at all (the last two need the heap balancer, which keeps every endpoint in use)
+  mode = draw(st.sampled_from(['shared', 'shared', 'staggered', 'partial', 'partial'])) if nports > 1 else 'shared'
+  balancer = draw(st.sampled_from(['default', 'default', 'heap'])) if mode == 'shared' else 'heap'
   period = draw(st.sampled_from([500, 1000, 2000]))
   phases = []
   t = 0
-  down_first = draw(st.sampled_from([False, False, True]))
+  down_first = draw(st.sampled_from([False, False, True])) if mode == 'shared' else False
   if down_first:
     up_at = draw(st.sampled_from([3, 7, 20, 45])) * 1000 + draw(st.integers(0, 999))
     phases.append([0, up_at, 'refuse'])
     t = up_at
-  for _ in range(draw(st.integers(1, 2))):
+  for _ in range(draw(st.integers(1, 2)) if mode == 'shared' else 1):
     start = t + draw(st.sampled_from([2, 5, 11, 33])) * 1000 + draw(st.integers(0, 999))
     dur = draw(st.sampled_from([3, 8, 20, 45, 90, 150])) * 1000 + draw(st.integers(0, 999))
-    kind = draw(st.sampled_from(['reset', 'reset', 'silent'])) if stack == 'thriftmux' else 'reset'
+    kind = draw(st.sampled_from(['reset', 'reset', 'silent'])) if stack == 'thriftmux' else draw(st.sampled_from(['reset', 'reset', 'hang']))
     phases.append([start, start + dur, kind])
     t = start + dur
-  stagger = draw(st.sampled_from([0, 0, 7000, 20000])) if (nports > 1 and balancer == 'heap' and len(phases) == 1) else 0
+  stagger = draw(st.sampled_from([7000, 20000])) if mode == 'staggered' else 0
   stagger_order = draw(st.sampled_from(['asc', 'desc']))
-  end = t + (res[1] + 8) * 1000 + stagger * (nports - 1) + (70 * period if stagger else 0)
+  affected = None
+  if mode == 'partial':
+    affected = sorted(draw(st.lists(st.sampled_from(ports), min_size=1, max_size=nports - 1, unique=True)))
+  end = t + (res[1] + 8) * 1000 + stagger * (nports - 1) + (70 * period if (stagger or affected) else 0)
   close_at = draw(st.one_of(st.none(), st.none(), st.integers(1000, end)))
   refuse_delay = draw(st.sampled_from([None, None, 400, 900]))
   close_on_connect = None
   if refuse_delay and close_at is None and draw(st.booleans()):
     close_on_connect = {'nth': draw(st.integers(1, 6)), 'delay_ms': draw(st.sampled_from([50, 200, refuse_delay - 50]))}
-  return {'stagger_ms': stagger, 'stagger_order': stagger_order, 'refuse_delay_ms': refuse_delay,
+  if affected:
+    close_at = None
+  close_on_error = None
+  if close_at is None and not affected and not close_on_connect and draw(st.booleans()):
+    close_on_error = {'nth': draw(st.integers(1, 3))}
+  return {'close_on_error': close_on_error, 'affected': affected, 'stagger_ms': stagger, 'stagger_order': stagger_order, 'refuse_delay_ms': refuse_delay,
           'close_on_connect': close_on_connect,'seed': draw(st.integers(0, 2 ** 16)), 'stack': stack, 'balancer': balancer, 'resurrector': res,
           'ports': ports, 'period_ms': period, 'phases': phases, 'end_ms': end, 'close_at': close_at,
           'pool_max': draw(st.sampled_from([None, 1, 2])) if stack == 'thrift' else None}
@@ -82,7 +93,7 @@ def to_world(plan):
     tl = []
     sp = {'connect': [], 'requests': [], 'timeline': tl, 'refuse_delay_ms': plan.get('refuse_delay_ms')}
     lag = plan.get('stagger_ms', 0) * order.index(p)
-    for start, stop, kind in plan['phases']:
+    for start, stop, kind in (plan['phases'] if not plan.get('affected') or p in plan['affected'] else []):
       stop = stop + lag
       if start == 0 and kind == 'refuse':
         sp['initially_down'] = True
@@ -90,6 +101,9 @@ def to_world(plan):
       elif kind == 'reset':
         tl.append([start, 'down'])
         tl.append([stop, 'up'])
+      elif kind == 'hang':
+        tl.append([start, 'hang'])
+        tl.append([stop, 'unhang'])
       else:
         tl.append([start, 'silent'])
         tl.append([stop, 'unsilent'])
@@ -108,7 +122,7 @@ def to_world(plan):
       'timeout_ms': T_MS, 'wait_open': True,
       'serverset': {'kind': 'uri', 'initial': plan['ports'], 'events': []},
       'servers': servers, 'calls': calls, 'run_ms': plan['end_ms'] + 1000, 'close_at': plan['close_at'],
-      'close_on_connect': plan.get('close_on_connect'),
+      'close_on_connect': plan.get('close_on_connect'), 'close_on_error': plan.get('close_on_error'),
   }
 
 
@@ -135,6 +149,14 @@ def execute(plan):
     # (d) nothing after close
     if tr.close_seq is not None:
       late = [e for e in net.log if e[2] == 'connect' and e[0] > tr.close_seq]
+      # a call that was in flight on a serial connection when the client was closed may reach its deadline afterwards;
+      # the transport's in-place reconnect is then cut off the moment the connection is handed back to the closed pool:
+      # an attempt that never got an outcome (accepted / refused / timed out) is not held against the client
+      outcome = set(e[3] for e in net.log if e[2] in ('connected', 'refused', 'connect_timeout'))
+      aborted = [e for e in late if e[3] not in outcome]
+      if aborted:
+        flags.add('reconnect_of_inflight_call_cut_off_by_close')
+      late = [e for e in late if e[3] in outcome]
       if late:
         raise Violation(ID, 'connect-after-close', 'connect attempt to %r %.1f s after DispatcherClose()' % (late[0][4], late[0][1] - close_t))
     connects = dict((p, []) for p in ports)       # port -> [(time, accepted?)]
@@ -150,6 +172,7 @@ def execute(plan):
     for p in ports:
       connects[p].sort()
 
+    partial = bool(plan.get('affected'))
     for start_ms, stop_ms, kind in plan['phases']:
       D, R = base + start_ms / 1000.0, base + stop_ms / 1000.0
       if close_t is not None and close_t < R + max_w + 3:
@@ -157,7 +180,13 @@ def execute(plan):
         R_eff = min(R, close_t)
       else:
         R_eff = R
-      during = [r for r in calls if D + 0.05 <= r.issued_at < R_eff - 0.01 and (close_t is None or r.issued_at < close_t)]
+      D_known = D
+      if kind == 'hang':
+        # a hanging server is only known to be down once a reconnect (made after a call timed out) has been refused;
+        # until then calls time out, or find their connection still busy reconnecting
+        refused = [e[1] for e in net.log if e[2] in ('refused', 'connect_timeout') and e[1] > D]
+        D_known = (min(refused) + 0.002) if refused else R_eff
+      during = [r for r in calls if max(D + 0.05, D_known) <= r.issued_at < R_eff - 0.01 and (close_t is None or r.issued_at < close_t)]
       # when was the fault observed?
       if kind == 'silent':
         # detected by an unanswered ping (30-40 s period + 5 s timeout)
@@ -180,7 +209,7 @@ def execute(plan):
       # FailedFastError.  "Known" needs one contact per endpoint: a serial connection notices the reset at its next
       # use (one raw connection error), and an endpoint without a live connection is first contacted by the request
       # that makes the balancer open it (that request waits for the connect, at most until its own deadline).
-      if kind != 'silent':
+      if kind != 'silent' and not partial:
         first_accept = min([t for p in ports for (t, ok) in connects[p] if ok and t > D + 0.01] + [float('inf')])
         live_at_D = set()
         for sq, t, k2, c2, _ in net.log:
@@ -258,7 +287,7 @@ def execute(plan):
         if len(gaps) >= 2:
           flags.add('backoff_observed')
       # (c) recovery
-      if R_eff == R and (close_t is None or close_t > R + max_w + 3):
+      if R_eff == R and (close_t is None or close_t > R + max_w + 3) and not partial:
         if kind == 'silent':
           # a black-hole is only noticed by an unanswered ping (30-40 s period, 5 s timeout), possibly after the
           # endpoint answers again; a reconnect attempt in flight needs its own 5 s ping timeout to fail
@@ -275,31 +304,49 @@ def execute(plan):
                 stop_ms / 1000.0, ms(bound) / 1000.0, max_w, ('%.1f s' % (ms(ok[0].first[0]) / 1000.0)) if ok else 'none'))
           flags.add('recovery_observed')
           first_ok = ok[0].issued_at if kind != 'silent' else bound
+          # connections that were established before the outage and have not been touched since: a serial connection
+          # only notices at its next use that the peer reset it, which costs that one call (per such connection)
+          stale = set()
+          for sq, t, k2, c2, _ in net.log:
+            if t >= D:
+              break
+            if k2 == 'connected' and c2 in by_cid:
+              stale.add(c2)
+            elif k2 in ('close', 'peer_eof'):
+              stale.discard(c2)
           for r in after:
             if first_ok < r.issued_at < horizon - 0.35 and (r.first is None or r.first[1] != 'value'):
+              if plan['stack'] == 'thrift' and r.first is not None and r.first[1] == 'error':
+                hit = [e[3] for e in net.log if e[2] == 'close' and e[3] in stale and r.issued_at - 0.001 <= e[1] <= r.first[0] + 0.002]
+                if hit:
+                  stale.discard(hit[0])
+                  flags.add('stale_connection_found_after_recovery')
+                  continue
               raise Violation(ID, 'fails-after-recovery', 'call %d issued at %.1f s failed (%s) although the client had recovered at %.1f s' % (
                   r.id, ms(r.issued_at) / 1000.0, repr(r.first[2])[-120:] if r.first else None, ms(first_ok) / 1000.0))
     # (c2) staggered recovery (heap balancer): every endpoint is used again once it is reachable
-    if plan.get('stagger_ms') and close_t is None:
+    if (plan.get('stagger_ms') or partial) and close_t is None:
       order = list(ports)
       if plan.get('stagger_order') == 'desc':
         order.reverse()
       stop_ms = plan['phases'][0][1]
-      for p in ports:
-        R_p = base + (stop_ms + plan['stagger_ms'] * order.index(p)) / 1000.0
-        bound = R_p + max_w + 1.0 + 60 * period
+      for p in (plan['affected'] if partial else ports):
+        R_p = base + (stop_ms + plan.get('stagger_ms', 0) * order.index(p)) / 1000.0
+        bound = R_p + max_w + 1.0 + 60 * period + (46.0 + 6.0 if plan['phases'][0][2] == 'silent' else 0.0)
+        if partial:
+          flags.add('partial_outage')
         if bound > tr.end - 1.0:
           continue
         peer = tr.peers[p]
         log = peer.requests if hasattr(peer, 'requests') else [f for f in peer.frames if f.get('k') is not None]
         got = [q['t'] for q in log if R_p <= q['t'] <= bound]
         if not got:
-          raise Violation(ID, 'endpoint-not-used-again', 'endpoint %d reachable again at %.1f s received no request by %.1f s (other endpoints recovered at other times; heap balancer)' % (
+          raise Violation(ID, 'endpoint-not-used-again', 'endpoint %d reachable again at %.1f s received no request by %.1f s (other endpoints recovered at other times or were never down; heap balancer)' % (
               p, ms(R_p) / 1000.0, ms(bound) / 1000.0))
         flags.add('staggered_recovery_observed')
     # values are echoes
     for r in calls:
       if r.first and r.first[1] == 'value' and r.first[2] not in [echo(p, 'hi', r.arg) for p in ports]:
         raise Violation(ID, 'foreign-value', 'call %d returned %r' % (r.id, r.first[2]))
-  return Outcome(nontrivial=sorted(flags) if 'recovery_observed' in flags else None,
+  return Outcome(nontrivial=sorted(flags) if ('recovery_observed' in flags or 'staggered_recovery_observed' in flags) else None,
                  classes=['stack=' + plan['stack'], 'balancer=' + plan['balancer'], 'ports=%d' % len(plan['ports'])] + sorted(flags))
